@@ -178,6 +178,11 @@ class HypStage:
             wrapped()
         except Violation:
             pass   # already reported through ctx.fail (last report = smallest found)
+        except Exception:
+            # e.g. hypothesis.errors.FlakyFailure when a schedule-dependent failure does not
+            # reproduce on Hypothesis's final replay: the failure itself was already reported
+            if not ctx.failed:
+                raise
 
 
 class EnumStage:
